@@ -132,6 +132,9 @@ func genHop(ids int) *rapid.Generator[hop] {
 				// could expire in the same tick, which would make the expected result order-dependent)
 				h.Re = &hop{Op: "start", ID: h.ID, Size: rapid.SampledFrom([]int{20, 24, 2052}).Draw(rt, "reSize")}
 			}
+			if op != "indicate" && rapid.IntRange(0, 9).Draw(rt, "refused") == 0 {
+				h.Ref = rapid.IntRange(1, 7).Draw(rt, "refuseErr")
+			}
 		case "respond":
 			h.ID = rapid.IntRange(0, ids-1).Draw(rt, "id")
 			h.Size = rapid.SampledFrom([]int{0, 0, 20, 20, 64, 512, 1024}).Draw(rt, "rsize")
